@@ -80,6 +80,6 @@ func runC11(c Case, st *Stats) error {
 func init() { register("C11", runC11) }
 
 func TestC11(t *testing.T) {
-	p := wlParams{Modes: []int{0, 0, 1, 2}, Segs: []int64{200, 333, 1024}, MaxSteps: 10, ReopenPct: 8, FailPct: 12, FaultPct: 8, MergePct: 10, Structs: true, SyncOnly: true}
+	p := wlParams{Modes: []int{0, 0, 1, 2}, Segs: []int64{120, 200, 333, 1024}, MaxSteps: 12, ReopenPct: 8, FailPct: 12, FaultPct: 8, MergePct: 12, Structs: true, SyncOnly: true}
 	runProperty(t, "C11", genWorkload(p), runC11)
 }
